@@ -29,6 +29,8 @@ type SOp struct {
 	Roles  wamp.Dict
 	How    int // leave: 0 GOODBYE, 1 lost transport, 2 protocol violation
 	Prog   bool
+	Scribble bool
+	Transport wamp.Dict
 }
 
 func (o SOp) String() string {
@@ -98,6 +100,12 @@ func (q *Seq) Exec(op SOp) bool {
 	r := q.Realms[string(s.Realm)]
 	m := r.M
 	what := op.String()
+	// the message gets private copies of the payload: an in-process recipient
+	// that modifies what it receives must not reach the model's copy
+	modelArgs, modelKw := op.Args, op.Kw
+	op.Args, _ = deepVal(op.Args).(wamp.List)
+	op.Kw, _ = deepVal(op.Kw).(wamp.Dict)
+	sentArgs, sentKw := op.Args, op.Kw
 	req := s.NextReq()
 	nowMs := int64(c.S.Elapsed() / 1e6)
 	switch op.Kind {
@@ -122,7 +130,7 @@ func (q *Seq) Exec(op SOp) bool {
 			return true
 		}
 		q.Settle()
-		exp, _ := m.Publish(idx, req, op.Opts, op.URI, op.Args, op.Kw, nowMs)
+		exp, _ := m.Publish(idx, req, op.Opts, op.URI, modelArgs, modelKw, nowMs)
 		if len(exp) > 1 {
 			c.Probe("publish_multi_recipient")
 		}
@@ -148,7 +156,7 @@ func (q *Seq) Exec(op SOp) bool {
 			return true
 		}
 		q.Settle()
-		exp, call := m.Call(idx, req, op.Opts, op.URI, op.Args, op.Kw)
+		exp, call := m.Call(idx, req, op.Opts, op.URI, modelArgs, modelKw)
 		if call != nil {
 			c.Probe("call_routed")
 			if call.Callee < 0 {
@@ -175,9 +183,9 @@ func (q *Seq) Exec(op SOp) bool {
 		q.Settle()
 		var exp []Exp
 		if op.Kind == "yield" {
-			exp = m.Yield(idx, sym, op.Prog, op.Args, op.Kw)
+			exp = m.Yield(idx, sym, op.Prog, modelArgs, modelKw)
 		} else {
-			exp = m.InvError(idx, sym, op.URI, op.Args, op.Kw)
+			exp = m.InvError(idx, sym, op.URI, modelArgs, modelKw)
 		}
 		q.Compare(r, what+fmt.Sprintf("->I#%d", sym), exp, nil)
 	case "cancel":
@@ -213,6 +221,9 @@ func (q *Seq) Exec(op SOp) bool {
 	default:
 		return false
 	}
+	if q.CheckSenderPayload && (payload(sentArgs, sentKw) != payload(modelArgs, modelKw)) {
+		c.Violf("step %d (%s): the sender's own payload objects were modified by a recipient: now %s", q.Step, what, payload(sentArgs, sentKw))
+	}
 	return true
 }
 
@@ -233,6 +244,8 @@ func (q *Seq) execJoin(op SOp) bool {
 	s := q.W.NewSess(fmt.Sprintf("s%d.%d", op.Slot, len(q.Slots)), wamp.URI(realm), op.Local, 64, hello)
 	idx := len(q.Slots)
 	q.Slots = append(q.Slots, s)
+	s.Scribble = op.Scribble && op.Local
+	s.TransportDetails = op.Transport
 	if !s.Join() {
 		c.Violf("step %d (%s): join refused: %v", q.Step, op.String(), s.Abort)
 		q.Slots[idx] = nil
